@@ -96,9 +96,15 @@ def job_build(job) -> report.JobResult:
     eng.sensitive_chars = tuple(sorted(set(URL_SENSITIVE) | {ord(c) for c in root}))
     port_v = z3.Int("port")
     eng.solver.add(port_v >= 1, port_v <= 65535)
-    host = SStr.fresh(2, "h", 0, 127, eng.solver)
-    restrict(eng, host, HOSTCHARS)
-    eng.solver.add(host.items[0].e != ord("."), host.items[0].e != ord("-"))
+    if job.get("ipv6"):
+        # the server listens on an IPv6 address ("::" + hex digit, e.g. ::1): servers hand the bare literal over, a URL needs it in brackets
+        hx = SStr.fresh(1, "h", 0, 127, eng.solver)
+        restrict(eng, hx, "0123456789abcdef")
+        host = SStr([58, 58] + hx.items)
+    else:
+        host = SStr.fresh(2, "h", 0, 127, eng.solver)
+        restrict(eng, host, HOSTCHARS)
+        eng.solver.add(host.items[0].e != ord("."), host.items[0].e != ord("-"))
     hhost = SStr.fresh(1, "hh", 0, 127, eng.solver)
     restrict(eng, hhost, HOSTCHARS.replace(".", "").replace("-", ""))
     path = SStr.fresh(n, "p", 0, 127, eng.solver)
@@ -129,7 +135,7 @@ def job_build(job) -> report.JobResult:
         if has_host:
             exp = its(scheme + "://") + hhost.items + its(".example")
         elif has_server:
-            exp = its(scheme + "://") + host.items
+            exp = its(scheme + "://") + (([91] + host.items + [93]) if job.get("ipv6") else host.items)
             if not (SInt(port_v) == DEFAULT[scheme]):
                 exp = exp + [58] + ["PORT"]
         exp_path = its(root) + [47] + path.items
@@ -187,7 +193,7 @@ def job_build(job) -> report.JobResult:
         if w["host_header"]:
             auth = f"{w['scheme']}://{w['header_host']}"
         elif w["server"]:
-            auth = f"{w['scheme']}://{w['host']}" + ("" if w["port"] == DEFAULT[w["scheme"]] else f":{w['port']}")
+            auth = f"{w['scheme']}://" + (f"[{w['host']}]" if ":" in w["host"] else w["host"]) + ("" if w["port"] == DEFAULT[w["scheme"]] else f":{w['port']}")
         want = auth + w["root"] + w["path"] + ("?" + w["query"] if w["query"] else "")
         if str(ua) != want:
             return f"ASGI url {str(ua)!r}, expected {want!r}"
@@ -489,6 +495,9 @@ def jobs(tier: str):
                         continue
                     out.append(dict(name=f"build/{scheme}/srv{int(server)}host{int(host)}/root{len(root)}/q{int(q)}", kind="build", scheme=scheme, server=server,
                                     host=host, root=root, query=q, n=min(n, 2)))
+    for scheme in ("http", "https", "ws"):
+        out.append(dict(name=f"build/{scheme}/ipv6-server-address/no-host-header", kind="build", scheme=scheme, server=True, host=False, root="", query=True, n=1, ipv6=True))
+    out.append(dict(name="build/http/ipv6-server-address/host-header", kind="build", scheme="http", server=True, host=True, root="/r", query=False, n=1, ipv6=True))
     out.append(dict(name="build/http/any-path", kind="build", scheme="http", server=True, host=False, root="", query=True, n=1, any_path=True))
     for b in range(len(BASES)):
         for f in FIELDS:
